@@ -796,3 +796,67 @@ pub fn replay_ostraps(a: &Args, out: &mut Out) {
         m.end(out);
     }
 }
+
+/// `lc3v replay interrupt hist=<file>`: a history is the program priority followed by placements
+/// (step, vect1, prio1, vect2, prio2); program and handler are those of MC_Interrupt.
+pub fn replay_interrupt(a: &Args, out: &mut Out) {
+    let hist = std::fs::read_to_string(a.get_str("hist", "")).expect("hist file");
+    set_pair_tag("none");
+    crate::machine::LIGHT_HEADERS.with(|l| l.set(true));
+    let prog = assemble_src("
+.orig x3000
+      AND R1, R1, #0
+      ADD R1, R1, #3
+LOOP  ADD R2, R2, #5
+      ST R2, CNT
+      ADD R6, R6, #-1
+      STR R2, R6, #0
+      ADD R1, R1, #-1
+      BRp LOOP
+      HALT
+CNT   .fill 0
+.end
+");
+    let handler = assemble_src("
+.orig x1000
+      ADD R6, R6, #-1
+      STR R0, R6, #0
+      LD R0, HC
+      ADD R0, R0, #1
+      ST R0, HC
+      LDR R0, R6, #0
+      ADD R6, R6, #1
+      RTI
+HC    .fill 0
+.end
+");
+    let mut run = 0u64;
+    for line in hist.lines() {
+        if line.trim().is_empty() { continue; }
+        let h: Vec<u32> = serde_json::from_str::<Vec<u64>>(line).expect("history").iter().map(|&x| x as u32).collect();
+        run += 1;
+        let mut m = M::new(run, known(0, false, false), out);
+        m.load(out, &handler);
+        m.load(out, &prog);
+        m.set_mems(out, &[(0x190, word(0x1000, 0xFFFF)), (0x191, word(0x1000, 0xFFFF))]);
+        for r in 0..8u16 { m.set_reg(out, r as u8, word(if r == 6 { 0xFD00 } else { r + 1 }, 0xFFFF)); }
+        m.set_psr(out, 0x8002 + 256 * h[0] as u16);
+        m.set_pc(out, 0x3000);
+        let s1 = m.add_intfn(out);
+        let s2 = m.add_intfn(out);
+        let mut step = 0u32;
+        loop {
+            step += 1;
+            let (mut c1, mut c2) = (IntCmd::default(), IntCmd::default());
+            for p in h[1..].chunks(5) { if p[0] == step {
+                if p[2] > 0 { c1 = IntCmd { k: 1, vect: p[1] as u8, prio: p[2] as u8 }; }
+                if p[4] > 0 { c2 = IntCmd { k: 1, vect: p[3] as u8, prio: p[4] as u8 }; }
+            } }
+            m.set_int(s1, c1); m.set_int(s2, c2);
+            let r = m.step(out, false, false);
+            if r != "ok" || step >= 120 { break; }
+            if m.sim.pc == 0x3008 && m.sim.verif_prefetch() && !m.sim.psr().privileged() { break; }
+        }
+        m.end(out);
+    }
+}
